@@ -299,6 +299,7 @@ func c06Check(r *vr.Report, cs c06Case, raw []byte) {
 		return
 	}
 	r.NT(cs.Base + "|" + pt.String() + "|" + mode + "|" + strings.Join(cs.Faults, "+"))
+	r.Outcome(fmt.Sprintf("cases with %d fault(s)", len(cs.Faults)))
 	if g.Class == c06lib.Reset && g.Code == 0 {
 		c06Viol(r, fmt.Sprintf("C06:notif-0/0:%s", g.Stage), cs, "the session is reset with NOTIFICATION %d/%d (error %q), code 0 does not exist: %s", g.Code, g.Sub, g.ErrText, what)
 		r.Outcome("notif-0/0")
@@ -393,33 +394,47 @@ func c06Check(r *vr.Report, cs c06Case, raw []byte) {
 			first = "duplicate-kept"
 		}
 		key := "C06:contained:" + first
-		if g.Skipped {
+		if g.Skipped && (first == "duplicate-kept" || strings.HasPrefix(first, "missing:") || strings.Contains(first, ":value->") ||
+			strings.Contains(first, "unrecognized-wellknown") || strings.Contains(first, "confed-segment")) {
 			key += ":validation-skipped-after-decoder-" + g.DecodeClass
 		}
 		c06Viol(r, key, cs, "reaction %s (accepted), but the attribute list that will be installed is not clean: %v: %s", g.Class, bad, what)
 	}
 }
 
-func c06Enumerate(bases []string, pairs func(base string, i, j int, fi, fj c06lib.Fault) bool, fn func(cs c06Case, raw []byte)) {
+// c06Enumerate walks the case space in a fixed order; the message of a case is only built when the
+// callback asks for it (workers skip the cases of other workers cheaply).
+func c06Enumerate(bases []string, pairs func(base string, i, j int) bool, fn func(cs func() c06Case, build func() ([]byte, bool))) {
 	for _, pt := range c06lib.PeerTypes {
 		for _, bn := range bases {
 			b := c06lib.BuildBase(bn, pt, c06lib.MarkerNew)
 			cat := c06lib.Catalogue(b, pt)
 			for _, revised := range []bool{true, false} {
-				fn(c06Case{Base: bn, Peer: int(pt), Revised: revised}, b.Msg.Bytes())
-				for _, f := range cat {
-					if m, ok := c06lib.Build(b, f); ok {
-						fn(c06Case{Base: bn, Peer: int(pt), Revised: revised, Faults: []string{f.ID}}, m.Bytes())
-					}
+				fn(func() c06Case { return c06Case{Base: bn, Peer: int(pt), Revised: revised} }, func() ([]byte, bool) { return b.Msg.Bytes(), true })
+				for i := range cat {
+					fn(func() c06Case { return c06Case{Base: bn, Peer: int(pt), Revised: revised, Faults: []string{cat[i].ID}} },
+						func() ([]byte, bool) {
+							m, ok := c06lib.Build(b, cat[i])
+							if !ok {
+								return nil, false
+							}
+							return m.Bytes(), true
+						})
 				}
 				for i := range cat {
 					for j := i + 1; j < len(cat); j++ {
-						if !pairs(bn, i, j, cat[i], cat[j]) {
+						if !pairs(bn, i, j) {
 							continue
 						}
-						if m, ok := c06lib.Build(b, cat[i], cat[j]); ok {
-							fn(c06Case{Base: bn, Peer: int(pt), Revised: revised, Faults: []string{cat[i].ID, cat[j].ID}}, m.Bytes())
-						}
+						fn(func() c06Case {
+							return c06Case{Base: bn, Peer: int(pt), Revised: revised, Faults: []string{cat[i].ID, cat[j].ID}}
+						}, func() ([]byte, bool) {
+							m, ok := c06lib.Build(b, cat[i], cat[j])
+							if !ok {
+								return nil, false
+							}
+							return m.Bytes(), true
+						})
 					}
 				}
 			}
@@ -460,7 +475,7 @@ func TestVerif_C06_Classify(t *testing.T) {
 	if vr.Thorough() {
 		stride = 1
 	}
-	pairs := func(base string, i, j int, fi, fj c06lib.Fault) bool {
+	pairs := func(base string, i, j int) bool {
 		if stride == 1 || !strings.HasPrefix(base, "v4full") {
 			return true
 		}
@@ -482,11 +497,17 @@ func TestVerif_C06_Classify(t *testing.T) {
 	W := vr.Workers()
 	r.Parallel(W, func(w int, c *vr.Report) {
 		n := 0
-		c06Enumerate(c06lib.BaseNames, pairs, func(cs c06Case, raw []byte) {
+		c06Enumerate(c06lib.BaseNames, pairs, func(mk func() c06Case, build func() ([]byte, bool)) {
 			n++
 			if n%W != w {
 				return
 			}
+			raw, ok := build()
+			if !ok {
+				c.Outcome("fault pair not applicable together (skipped)")
+				return
+			}
+			cs := mk()
 			c06Check(c, cs, raw)
 			if c.WantSample() && (n%40009 == 0 || (len(cs.Faults) == 1 && n%97 == 0)) {
 				cs.Hex = c06lib.Hex(raw)
